@@ -153,6 +153,24 @@ def build(tier, seed):
              'Z3': '=COUNTIFS(A1:A2,">="&C1)', 'D1': 1, 'D2': 2, 'C3': 0, 'E1': 1, 'E2': 1,
              'Z4': '=COUNTIFS(A1:A2,">"&C1,B1:B2,"<="&C2,D1:D2,"<>"&C3)', 'Z5': '=COUNTIFS(A1:A2,">"&C1,B1:B2,"<="&C2,D1:D2,"<>"&C3,E1:E2,C1)'})
 
+    def mk_ifs(z):
+        def h_ifs(a1: int, a2: int, b1: int, b2: int, k1: int, k2: int) -> bool:
+            k1, k2 = concretize(k1, -1, 1), concretize(k2, -1, 1)
+            for nm, v in (('A1', a1), ('A2', a2), ('B1', b1), ('B2', b2), ('C1', k1), ('C2', k2)):
+                setv(MS, 'Sheet1!' + nm, v)
+            ev = Evaluator(MS)
+            rows = ((a1, b1), (a2, b2))
+            if z == 1:
+                return nval(ev.evaluate('Sheet1!Z1')) == sum(1 for a, b in rows if a > k1 and b <= k2)
+            if z == 2:
+                return nval(ev.evaluate('Sheet1!Z2')) == sum(1 for a, b in rows if a == k1 and b != k2)
+            return nval(ev.evaluate('Sheet1!Z3')) == sum(1 for a, b in rows if a >= k1)
+        return h_ifs
+    for z, desc in ((1, '(">"&k1, "<="&k2)'), (2, '(k1, "<>"&k2)'), (3, 'single criterion ">="&k1')):
+        add(f'COUNTIFS[{desc}]', mk_ifs(z), lambda a1, a2, b1, b2, k1, k2: -1 <= k1 <= 1 and -1 <= k2 <= 1, [(1, 2, 2, 1, 1, 1), (0, 0, 0, 0, -1, 0)],
+            f'two ranges of 2 int cells (unbounded), criteria {desc} combined position by position; k1, k2 in -1..1 (forked)', 60,
+            lambda *a: f'A={a[:2]!r} B={a[2:4]!r} k1={a[4]} k2={a[5]}')
+
     def mk_ifs3(ks, four):
         k1, k2, k3 = ks
 
